@@ -120,7 +120,7 @@ theorem C03_full_counterexample (s : Site) (hs : s ∈ Gen.mapRangeSites) (hk : 
   · rw [ho] at h; cases h
   · have hadm : s.effects.all Effect.admissible = true := by
       simp only [Site.proved, Site.admissible, Bool.and_eq_true] at h
-      exact h.1.1.1
+      exact h.1.1.1.1
     have hmem : s.key ∈ knownNondeterministic := by
       simpa [Site.known, List.contains_iff_mem] using hk
     have := C03_known_are_nonadmissible s.key hmem
